@@ -1,13 +1,14 @@
 #!/bin/bash
 # usage: tools/try_benign.sh <dir with patch.diff> [props...]  - a property-preserving change: every check must stay silent (exit 0)
+HERE=$(cd "$(dirname "$0")/.." && pwd)
 SEED=$(readlink -f "$1"); shift
-PROPS=${@:-$(python3 -c "import json;print(' '.join(c['property_id'] for c in json.load(open('/verif/MANIFEST.json'))['checks']))")}
+PROPS=${@:-$(python3 -c "import json;print(' '.join(c['property_id'] for c in json.load(open('$HERE/MANIFEST.json'))['checks']))")}
 WT=/tmp/benign_$$_$(basename "$SEED")
 git -C /repo worktree add -q --detach "$WT" HEAD || exit 2
 trap 'git -C /repo worktree remove --force "$WT" 2>/dev/null; rm -rf "$WT" /tmp/benign_ev_$$' EXIT
 git -C "$WT" apply "$SEED/patch.diff" || { echo "PATCH DOES NOT APPLY"; exit 2; }
 (cd "$WT" && PYTHONPATH="$WT" /venv/bin/python -m pytest -q -n 6 -p no:cacheprovider 2>&1 | tail -1)
-cd /verif
+cd "$HERE"
 bad=0
 for p in $PROPS; do
   OUT=$(VERIF_REPO="$WT" VERIF_REPLAY_DIR=/tmp/benign_ev_$$/r VERIF_EVIDENCE_DIR=/tmp/benign_ev_$$ /venv/bin/python check.py "$p" --tier quick 2>&1); RC=$?
